@@ -6,6 +6,7 @@ import (
 	"github.com/anyproto/any-sync/commonspace/object/acl/aclrecordproto"
 	"github.com/anyproto/any-sync/consensus/consensusproto"
 	rt "github.com/anyproto/any-sync/internal/verifrt"
+	"github.com/anyproto/any-sync/util/cidutil"
 )
 
 // a read key change whose keys really open: the read key is encrypted to every permission holder, the
@@ -187,5 +188,40 @@ func VerifC05Coverage() {
 	rt.Reach("accepted")
 	for _, id := range []string{"own", "a1", "a2", "zz"} {
 		rt.Assert(named[id] == holders[id], "accepted-rotation-names-every-remaining-holder-exactly-once")
+	}
+}
+
+// VerifC03Acceptor: where the network acceptor's signature is required, a record without it (or with a wrong
+// one) is refused by every observer - a bystander, a member, and the record's own author - and leaves no trace.
+func VerifC03Acceptor() {
+	vC03Install()
+	v := &vC03Verifier{validate: rt.Choose(2) == 1, acceptorOk: true}
+	observer := []string{"obs", "own", "a1"}[rt.Choose(3)]
+	root := vC03Root("own")
+	l, store, err := vC03List([]*consensusproto.RawRecordWithId{root}, v, observer)
+	rt.Assert(err == nil, "build")
+	rec := vC03Record(root.Id, "own", vC03Content(rt.Choose(3), l.aclState))
+	bad := rt.Choose(3) // 0: genuine, 1: acceptor signature missing, 2: signed by somebody else
+	if bad > 0 {
+		inner := &consensusproto.RawRecord{}
+		rt.Assert(inner.UnmarshalVT(rec.Payload) == nil, "decodes")
+		if bad == 1 {
+			inner.AcceptorSignature = nil
+		} else {
+			inner.AcceptorSignature = []byte("ACCx")
+		}
+		b, _ := inner.MarshalVT()
+		id, _ := cidutil.NewCidFromBytes(b)
+		rec = &consensusproto.RawRecordWithId{Payload: b, Id: id}
+	}
+	before := vC03Observe(l)
+	stored := len(store.Storage.(*inMemoryStorage).records)
+	err = l.AddRawRecord(rec)
+	if bad > 0 {
+		rt.Assert(err != nil, "record-without-the-acceptors-signature-is-refused-by-every-observer")
+		rt.Assert(vC03Observe(l) == before && len(store.Storage.(*inMemoryStorage).records) == stored, "refused-record-leaves-no-trace")
+		rt.Reach("refused")
+	} else if err == nil {
+		rt.Reach("accepted")
 	}
 }
